@@ -81,14 +81,19 @@ struct to_integer_options {
     /// Skip an optional 0x or 0X in front of the digits if base is 16 and detect the
     /// base if it is 0: 16 after 0x or 0X, 8 after a leading 0, 10 otherwise (strtol, stoi, ...)
     bool allow_base_prefix = false;
+
+    /// On overflow, consume all digits and clamp: end points behind the digits and value
+    /// is numeric_limits::max() or, after a '-', min() instead of str.data() and 0 (strtol, ...)
+    bool saturate_on_overflow = false;
 };
 
 /// \brief Grammar of the C library functions strtol, strtoul, atoi, ... (ISO C 7.22.1.4)
 inline constexpr auto to_integer_c_options = to_integer_options{
-    .skip_whitespace   = true,
-    .check_overflow    = true,
-    .allow_plus_sign   = true,
-    .allow_base_prefix = true,
+    .skip_whitespace      = true,
+    .check_overflow       = true,
+    .allow_plus_sign      = true,
+    .allow_base_prefix    = true,
+    .saturate_on_overflow = true,
 };
 
 enum struct to_integer_error : unsigned char {
@@ -173,14 +178,20 @@ template <integral Int, to_integer_options Options = to_integer_options{}>
     }
 
     // loop over rest of digits
+    auto overflow = false;
     for (; pos != length; ++pos) {
         auto const digit = parseDigit(static_cast<int>(str[pos]));
         if (digit >= base) {
             break;
         }
 
-        if (wouldOverflow(value, digit)) {
-            return makeError(to_integer_error::overflow);
+        if (overflow or wouldOverflow(value, digit)) {
+            if constexpr (Options.saturate_on_overflow) {
+                overflow = true; // keep going: end points behind all digits
+                continue;
+            } else {
+                return makeError(to_integer_error::overflow);
+            }
         }
 
         if constexpr (signed_integral<Int>) {
@@ -191,15 +202,26 @@ template <integral Int, to_integer_options Options = to_integer_options{}>
     }
 
     if constexpr (signed_integral<Int>) {
-        if (positive) {
+        if (positive and not overflow) {
             if (value == numeric_limits<Int>::min()) {
-                return makeError(to_integer_error::overflow);
+                if constexpr (Options.saturate_on_overflow) {
+                    overflow = true;
+                } else {
+                    return makeError(to_integer_error::overflow);
+                }
+            } else {
+                value *= Int(-1);
             }
-            value *= Int(-1);
         }
     }
 
     auto const end = etl::next(str.data(), static_cast<etl::ptrdiff_t>(pos));
+    if constexpr (Options.saturate_on_overflow) {
+        if (overflow) {
+            auto const limit = positive ? numeric_limits<Int>::max() : numeric_limits<Int>::min();
+            return {.end = end, .error = to_integer_error::overflow, .value = limit};
+        }
+    }
     return {.end = end, .error = to_integer_error::none, .value = value};
 }
 
